@@ -104,6 +104,7 @@ extern "C" int LLVMFuzzerTestOneInput(const uint8_t* data, size_t size) {
   v.reserve(sub.fields.size());
   for (auto& f : sub.fields) v.push_back(f.lo == f.hi ? f.lo : fdp.ConsumeIntegralInRange<int64_t>(f.lo, f.hi));
   vh::Ctx c;
+  vh::g_case_hash = vh::fnv1a(v.data(), v.size() * sizeof(int64_t), vh::fnv1a(sub.name.data(), sub.name.size()));
   sub.run(v, c);
   if (c.discard) { ++g_discards; return 0; }
   ++g_execs;
